@@ -13,7 +13,7 @@ META = dict(
     "every later point, close()/shutdown() at every point; oracle at every quiescent state: open connections <= 1, the open one is the current one when "
     "connected, failed/superseded connections are closed by the controller, close() never raises and leaves none open, loss of an abandoned connection "
     "changes neither is_connected nor the current transport shutdown() is final: nothing may be open at any quiescent state after it, whatever announcements or callers arrive later (shutdown preludes); further configurations under other read-cutting / block-size / HTTP-spelling environments. BLE leg (c11_ble.py): depth-bounded exhaustive histories over {use, a second use while the first is in flight, GATT operations held in flight and released, peer drop, failing connection attempt, failing GATT disconnect, close, shutdown} on a real BlePairing: "
-    "at most one GATT connection open at any moment, none after shutdown() or after a close() that no operation outlived, close()/shutdown() complete without raising.",
+    "at most one GATT connection open at any moment, none after shutdown() or after a close() that no operation outlived, close()/shutdown() complete without raising. Also a secure session whose re-subscription is answered in a shape the pairing cannot digest, attempt after attempt.",
     note="bounded by deviations d and horizon as reported; accessory never closes a connection on its own unless the explorer says so (worst case for leaks)",
     design_ref="DESIGN.md §4 C11",
     rule="state = canonical (timers, connector frame locals, flags, open conns per side); transition = one environment choice; execution = run to horizon",
